@@ -23,7 +23,7 @@ ENV = dict(os.environ, CARGO_NET_OFFLINE="true", CARGO_TERM_COLOR="never")
 FORBIDDEN = re.compile(
     r"\bAdmitted\b|\badmit\b|\bAxiom\b|\bAxioms\b|\bParameter\b|\bParameters\b|\bConjecture\b|"
     r"\bAdmit Obligations\b|Unset Guard Checking|Unset Positivity Checking|Unset Universe Checking|"
-    r"bypass_check|type-in-type|impredicative-set|\bHypothesis\b|\bHypotheses\b"
+    r"bypass_check|type-in-type|impredicative-set"
 )
 # stdlib axioms a theorem may depend on (none expected; listed per property in the spec)
 STD_AXIOMS = {
@@ -170,8 +170,8 @@ def audit_sources(files=None):
                 m = FORBIDDEN.search(line)
                 if m:
                     bad.append("%s:%d: %s" % (os.path.relpath(p, ROOT), i, line.strip()[:120]))
-                if re.match(r"\s*(Variable|Variables|Context)\b", line) and not in_section:
-                    bad.append("%s:%d: Variable outside a section" % (os.path.relpath(p, ROOT), i))
+                if re.match(r"\s*(Variable|Variables|Context|Hypothesis|Hypotheses)\b", line) and not in_section:
+                    bad.append("%s:%d: Variable/Hypothesis outside a section" % (os.path.relpath(p, ROOT), i))
     proj = open(os.path.join(COQ, "_CoqProject")).read()
     if "type-in-type" in proj or "impredicative-set" in proj:
         bad.append("_CoqProject passes a forbidden flag")
